@@ -2,7 +2,8 @@
 // services/checker/static and services/process/standard (P7, second half of this file) and of util/scatter.go,
 // the gRPC receiver's senderID, OnCommit, getGeneration and peers.Suitable (P9), and of the import command's merge
 // loop in slashingprotection.go (P12, last part of this file).  The signer's batch signing loop (P15) is in signloop.go,
-// the signer's pre-check (P16) in precheck.go, the ruler's RunRules (P17) in runrules.go.
+// the signer's pre-check (P16) in precheck.go, the ruler's RunRules (P17) in runrules.go, the lister's ListAccounts (P18) in
+// lister.go, the batch paths of the gRPC signer handlers (P19) in handlerbatch.go.
 //
 // It is a guard-chain extractor, not a Go compiler: the body of each kernel is read as a sequence of
 // guards (`if cond { …log…; return rules.X }`), local aliases, state-field updates and a final return,
@@ -255,6 +256,37 @@ var kernelSpecs = []kernelSpec{
 		file: lsFile, fn: "ListAccounts",
 		name: "listShapeGen", guards: "listShapeGuards", model: "Dirk.listAccounts (what is handed to which call; flatMap over the paths, filter over the accounts)",
 		pkgLog: true, custom: transListShape,
+	},
+	// ---- P19 (handlerbatch.go) ----
+	{
+		file: hbAttsFile, fn: "SignBeaconAttestations",
+		name: "attsEntryVerdictGen", guards: "attsEntryVerdictGuards", model: "Dirk.handlerRejects (inside Dirk.firstRejected)",
+		pkgLog: true, custom: transEntryVerdict,
+	},
+	{
+		file: hbMsignFile, fn: "Multisign",
+		name: "msignEntryVerdictGen", guards: "msignEntryVerdictGuards", model: "the predicate of Dirk.firstRejectedSign",
+		pkgLog: true, custom: transEntryVerdict,
+	},
+	{
+		file: hbAttsFile, fn: "SignBeaconAttestations",
+		name: "batchEarlyGen", guards: "batchEarlyGuards", model: "the `items.isEmpty` branch of Dirk.hSignAtts / Dirk.hMultisign",
+		pkgLog: true, custom: transBatchEarly,
+	},
+	{
+		file: hbAttsFile, fn: "SignBeaconAttestations",
+		name: "batchAfterValidateGen", guards: "batchAfterValidateGuards", model: "the `firstRejected … = some i` branch of Dirk.hSignAtts / Dirk.hMultisign",
+		pkgLog: true, custom: transBatchAfterValidate,
+	},
+	{
+		file: hbAttsFile, fn: "SignBeaconAttestations",
+		name: "resultToStateGen", guards: "resultToStateGuards", model: "Dirk.respond",
+		pkgLog: true, custom: transResultToState,
+	},
+	{
+		file: hbAttsFile, fn: "SignBeaconAttestations",
+		name: "handlerShapeGen", guards: "handlerShapeGuards", model: "Dirk.hSignAtts / Dirk.hMultisign (one response per entry, validation before the signer, `respond` after it)",
+		pkgLog: true, custom: transHandlerShape,
 	},
 }
 
@@ -1188,7 +1220,8 @@ func writeKernels(repo, dir string) {
 		"  util/scatter.go, services/api/grpc/handlers/receiver, services/peers/static, slashingprotection.go,\n" +
 		"  services/signer/standard: the batch signing loop and the pre-check, with core/result.go and rules/service.go for the\n" +
 		"  enumerator values; services/ruler/golang/runner.go: RunRules and the head of runRules, with services/ruler/service.go\n" +
-		"  for the action constants);\n" +
+		"  for the action constants; services/lister/standard/listaccounts.go; services/api/grpc/handlers/signer: the batch paths of\n" +
+		"  SignBeaconAttestations and Multisign);\n" +
 		"  Dirk/Props/KernelsEq.lean proves each definition\n" +
 		"  equal to the hand-written model function.  A kernel outside the translatable fragment appears as\n" +
 		"  `kernelUntranslatable_<name>` instead, and KernelsEq.lean does not build.\n-/\n" +
